@@ -1109,6 +1109,7 @@ pub fn project(name: &str, trace: &[Value]) -> Vec<Value> {
         "keys" => crate::proj_key::keys(trace),
         "ecn" => crate::proj_ecn::ecn(trace),
         "hs" => crate::proj_hs::hs(trace),
+        "sched" => crate::proj_sched::sched(trace),
         "migration" => crate::proj_c15::migration(trace),
         "dgram" => crate::proj_c16::dgram(trace),
         "zerortt" => crate::proj_c17::zerortt(trace),
